@@ -322,6 +322,34 @@ func oracleC02(r *Rng, n int, thorough bool, seeds []string) *OracleResult {
 			}
 			if s4 := stripLabelOriginals(sxMsg6(m2)); s4 != s1 {
 				what = "the decoded message changed when the bytes it was decoded from were overwritten: " + firstDiff(s1, s4)
+				return
+			}
+			// a DECODED message edited in place is a message like any other: its
+			// encoding decodes to it (seeded change C02-8: bytes cached at decode time
+			// and re-emitted although the encapsulated message was edited)
+			d, err := dhcpv6.FromBytes(m.ToBytes())
+			if err != nil {
+				return
+			}
+			inner, err := d.GetInnerMessage()
+			if err != nil || inner == nil {
+				return
+			}
+			if inner.MessageType == dhcpv6.MessageTypeSolicit {
+				inner.MessageType = dhcpv6.MessageTypeRebind
+			} else {
+				inner.MessageType = dhcpv6.MessageTypeSolicit
+			}
+			inner.TransactionID[0] ^= 0xff
+			inner.AddOption(&dhcpv6.OptionGeneric{OptionCode: 4242, OptionData: []byte{1, 2, 3}})
+			e1 := stripLabelOriginals(sxMsg6(d))
+			d2, err := dhcpv6.FromBytes(d.ToBytes())
+			if err != nil {
+				what = "a decoded message edited in place no longer decodes after encoding: " + err.Error()
+				return
+			}
+			if e2 := stripLabelOriginals(sxMsg6(d2)); e2 != e1 {
+				what = "decoded, edited in place, encoded, decoded: " + firstDiff(e1, e2)
 			}
 		}()
 		if what != "" {
